@@ -140,6 +140,7 @@ func TestC19_StateMachine(t *testing.T) {
 	}
 	defer srv.Stop()
 	ev.Check(t, c19, func(rt *rapid.T) {
+		defer drawSched(rt).install()() // seeded yields at the library's schedule points
 		px, err := netfx.NewProxy(srv.Addr)
 		if err != nil {
 			rt.Fatalf("infrastructure: %v", err)
